@@ -731,6 +731,50 @@ fn stress_session(ctx: &Ctx, idx: usize, seeds: &[String], cycles: u64) {
     }
 }
 
+/// Many very short rounds of go + (stop and isready in ONE write): the answers of the two threads
+/// (bestmove from the search thread, readyok from the input thread) collide on stdout thousands of
+/// times. Every line must stay whole and every command must be answered.
+fn burst_session(ctx: &Ctx, idx: usize, rounds: usize) {
+    let mut rng = Rng::derive(ctx.seed, 0xC10_B000 + idx as u64);
+    let env = vec![("RCE_VERIF_TRACE".to_string(), "0".to_string())];
+    let Ok(mut e) = Engine::spawn(&ctx.engine, &env) else { return };
+    e.send(*rng.pick(&["position startpos", "position fen 7k/8/8/8/8/8/8/K7 w - - 0 1", "position startpos moves e2e4 e7e5"]));
+    let mut from = 0usize;
+    let mut done = 0;
+    for _ in 0..rounds {
+        let go = *rng.pick(&["go infinite", "go infinite", "go depth 100", "go movetime 3600000"]);
+        e.send(go);
+        // the search must be under way when the stop arrives, so that its bestmove is printed at
+        // the very moment the input thread prints readyok: wait for its first info line
+        let _ = e.wait_since(from, 50, |ev| ev.src == Src::Out && ev.line.starts_with("info"));
+        if rng.chance(1, 2) {
+            let spins = rng.below(3_000);
+            let mut x = 0u64;
+            for i in 0..spins {
+                x = x.wrapping_add(i).rotate_left(7);
+                std::hint::black_box(x);
+            }
+        }
+        e.send_raw(b"stop\nisready\n");
+        let a = e.wait_since(from, ALLOWANCE_MS + 4_000, |ev| ev.src == Src::Out && ev.line.starts_with("bestmove"));
+        let b = e.wait_since(from, 4_000, |ev| ev.src == Src::Out && ev.line == "readyok");
+        match (a, b) {
+            (Some(x), Some(y)) => from = x.max(y) + 1,
+            _ => break,
+        }
+        done += 1;
+    }
+    out::count("C10.burst_rounds", done as u64);
+    e.settle(50);
+    let sched = Schedule {
+        name: "burst[stop+isready in one write]".into(),
+        sched: String::new(),
+        steps: vec![],
+        held_ms: 0,
+    };
+    let _ = check_history("C10", &sched, &e, 200_000 + idx, false);
+}
+
 pub fn run_c10(ctx: &Ctx) -> Result<(), String> {
     let seeds: Vec<String> = corpus::all_seeds()?;
     let thorough = ctx.tier == "thorough";
@@ -755,7 +799,8 @@ pub fn run_c10(ctx: &Ctx) -> Result<(), String> {
     let next = std::sync::atomic::AtomicUsize::new(0);
     let n_stress = if thorough { 1_500 } else { 160 };
     let cycles = if thorough { 30 } else { 12 };
-    let total = all.len() + n_stress;
+    let n_burst = if thorough { 96 } else { 16 };
+    let total = all.len() + n_stress + n_burst;
     let started = std::time::Instant::now();
     std::thread::scope(|s| {
         // forced schedules are timing sensitive: run at most 8 at a time
@@ -777,8 +822,10 @@ pub fn run_c10(ctx: &Ctx) -> Result<(), String> {
                 let r = std::panic::catch_unwind(std::panic::AssertUnwindSafe(|| {
                     if i < all.len() {
                         run_schedule(ctx, &all[i], i);
-                    } else {
+                    } else if i < all.len() + n_stress {
                         stress_session(ctx, i - all.len(), &seeds, cycles);
+                    } else {
+                        burst_session(ctx, i - all.len() - n_stress, 300);
                     }
                 }));
                 if let Err(e) = r {
